@@ -104,6 +104,7 @@ func showLLL(l [][][]*big.Int) string {
 // one implementation per curve (generated from c17a_bn254.go by sed, see c17a_gen.sh)
 type c17Curve interface {
 	modulus() *big.Int
+	frGen() *big.Int // fft.GeneratorFullMultiplicativeGroup
 	hasNoSubG1() bool
 	pedSingle(a kvs) string
 	pedBatch(a kvs) string
@@ -302,7 +303,9 @@ func genPedersen(g *gen, cn string, c c17Curve) {
 	g.emit("C17 pedersen %s single g=1 s=0 b=3,4 v=5,6 v2=7,8 mut=Cset m=9", cn)
 	g.emit("C17 pedersen %s single g=0 s=5 b=3,4 v=5,6 v2=7,8 mut=Pset m=9", cn)
 
-	batchMuts := []string{"none", "Cset", "Cadd", "Czero", "Pset", "Padd", "Pzero", "Cswap", "rv", "vkG", "vkS", "dropP", "dropC", "scale", "Pcomp"}
+	// Ccancel / Pcancel: errors e, −e in two commitments / proofs of knowledge (cancel iff their two coefficients are equal: the
+	// coefficient r is on the line, r = 1 and r = 0 included; the model computes with it)
+	batchMuts := []string{"none", "Cset", "Cadd", "Czero", "Pset", "Padd", "Pzero", "Cswap", "rv", "vkG", "vkS", "dropP", "dropC", "scale", "Pcomp", "Ccancel", "Pcancel"}
 	for _, mode := range []string{"multi", "folded"} {
 		for k := 0; k <= g.budget(4, 7); k++ {
 			gg := g.nzScalar(r)
@@ -329,7 +332,10 @@ func genPedersen(g *gen, cn string, c c17Curve) {
 				if k == 0 && mut != "none" {
 					continue
 				}
-				if mut == "Pcomp" && (mode != "multi" || k < 2) {
+				if (mut == "Pcomp" || mut == "Pcancel") && (mode != "multi" || k < 2) {
+					continue
+				}
+				if mut == "Ccancel" && k < 2 {
 					continue
 				}
 				idxs := []int{0}
@@ -338,6 +344,9 @@ func genPedersen(g *gen, cn string, c c17Curve) {
 				}
 				if mut == "none" || mut == "rv" || mut == "dropP" || mut == "dropC" || mut == "scale" || mut == "Pcomp" {
 					idxs = []int{0}
+				}
+				if mut == "Ccancel" || mut == "Pcancel" {
+					idxs = []int{0, k - 1} // partner (i+1) mod k
 				}
 				for _, i := range idxs {
 					if (mut == "Pset" || mut == "Padd" || mut == "Pzero") && mode == "folded" && i > 0 {
@@ -612,6 +621,7 @@ func genPermutation(g *gen, cn string, c c17Curve) {
 	// sizes that are not a power of two / size 1: the prover refuses
 	emit(g.scalars(r, 3), g.scalars(r, 3), nil, nil, "none", 0, big.NewInt(0))
 	emit(g.scalars(r, 1), g.scalars(r, 1), nil, nil, "none", 0, big.NewInt(0))
+	genPermConsist(g, cn, c)
 	for rep := 0; rep < g.budget(1, 4); rep++ {
 		n := []int{4, 8, 16}[g.rng.intn(g.budget(2, 3))]
 		t1, t1b := g.scalars(r, n), g.scalars(r, n)
@@ -624,6 +634,99 @@ func genPermutation(g *gen, cn string, c c17Curve) {
 				emit(t1, t2, t1b, t2b, mut, g.rng.intn(4), g.nzScalar(r))
 			} else {
 				emit(t1, t2, nil, nil, mut, g.rng.intn(4), g.nzScalar(r))
+			}
+		}
+	}
+}
+
+// CONSISTENT FORGERIES UNDER A DEGENERATE PROVER-SUPPLIED PARAMETER (size, g are fields of the proof): for every size m in
+// {2, 4, 8, the first even m ≥ 6 that is not a power of two and divides r − 1} (+ 1, 3, 12 on bn254; thorough: more, everywhere) and every g in
+// {primitive m-th roots w, w³ (accepted contrast), 1, −1, w² (order m/2), w^(m/2) ..., a primitive 2m-th root, 0, a non-root}
+// a COMPLETE proof in which every other component is derived honestly for that (m, g) (mut=consist, built by permForge):
+// only the check of the parameter can reject it. Vectors: a true statement (t2 a permutation of t1 that is compatible with
+// the orbit structure of g) and a false one (t2 differs from t1 outside the orbit of 1 / anywhere when g ∉ H).
+func genPermConsist(g *gen, cn string, c c17Curve) {
+	r := c.modulus()
+	rm1 := new(big.Int).Sub(r, big.NewInt(1))
+	divides := func(m int) bool { return new(big.Int).Mod(rm1, big.NewInt(int64(m))).Sign() == 0 }
+	root := func(m int) *big.Int { return new(big.Int).Exp(c.frGen(), new(big.Int).Div(rm1, big.NewInt(int64(m))), r) }
+	pow := func(b *big.Int, e int) *big.Int { return new(big.Int).Exp(b, big.NewInt(int64(e)), r) }
+	sizes := []int{2, 4, 8}
+	for m := 6; m < 40; m += 2 {
+		if m&(m-1) != 0 && divides(m) {
+			sizes = append(sizes, m)
+			break
+		}
+	}
+	if g.thorough() || cn == "bn254" { // quick tier: the sizes 1, 3, 12 on bn254 only
+		sizes = append(sizes, 1, 3, 12)
+	}
+	if g.thorough() {
+		sizes = append(sizes, 5, 7, 9, 10, 16, 24, 32)
+	}
+	emit := func(m int, fg *big.Int, t1, t2 []*big.Int) {
+		base := "tau=" + hexBig(g.nzScalar(r)) + " n=" + hexInt(2*m+4) + " t1=" + showL(t1) + " t2=" + showL(t2) + " t1b=- t2b=- mut=consist i=0 m=" +
+			hexBig(g.nzScalar(r)) + " fm=" + hexInt(m) + " pw2=" + c17bs(m&(m-1) == 0) + " fg=" + hexBig(fg)
+		g.emit("C17 permutation %s %s %s", cn, base, c.permutation(parseKvs(strings.Fields(base)), true))
+	}
+	for _, m := range sizes {
+		if !divides(m) {
+			continue
+		}
+		w := root(m)
+		type cand struct {
+			fg *big.Int
+			k  int // fg = w^k, −1: not an m-th root of unity
+		}
+		cands := []cand{{w, 1 % m}, {big.NewInt(1), 0}, {big.NewInt(0), -1}, {g.nzScalar(r), -1}, {new(big.Int).Sub(r, big.NewInt(1)), -2}}
+		if m > 2 {
+			cands = append(cands, cand{pow(w, 2), 2 % m}, cand{pow(w, m-1), m - 1})
+		}
+		if m > 4 {
+			cands = append(cands, cand{pow(w, 3), 3}, cand{pow(w, m/2+1), m/2 + 1})
+			if m%4 == 0 {
+				cands = append(cands, cand{pow(w, m/4), m / 4})
+			}
+		}
+		if divides(2 * m) {
+			cands = append(cands, cand{root(2 * m), -1})
+		}
+		for _, cd := range cands {
+			k := cd.k
+			if k == -2 { // −1 = w^(m/2) when m is even
+				k = -1
+				if m%2 == 0 {
+					k = m / 2
+				}
+			}
+			t1 := g.scalars(r, m)
+			// the orbit of 1 under x ↦ g·x (indices into H); everything when g ∉ H
+			onOrbit := make([]bool, m)
+			var orbit []int
+			if k >= 0 {
+				for idx := 0; !onOrbit[idx]; idx = (idx + k) % m {
+					onOrbit[idx] = true
+					orbit = append(orbit, idx)
+				}
+			}
+			// true statement: the entries on the orbit of 1 are permuted among themselves, the others stay
+			tt := append([]*big.Int{}, t1...)
+			for i := len(orbit) - 1; i > 0; i-- {
+				j := g.rng.intn(i + 1)
+				tt[orbit[i]], tt[orbit[j]] = tt[orbit[j]], tt[orbit[i]]
+			}
+			emit(m, cd.fg, t1, tt)
+			// false statement: in addition one entry (two when possible) off the orbit of 1 is replaced
+			tf := append([]*big.Int{}, tt...)
+			changed := 0
+			for i := m - 1; i >= 0 && changed < 2; i-- {
+				if !onOrbit[i] {
+					tf[i] = g.scalar(r)
+					changed++
+				}
+			}
+			if changed > 0 {
+				emit(m, cd.fg, t1, tf)
 			}
 		}
 	}
@@ -805,7 +908,8 @@ func genMpcsetup(g *gen, cn string, c c17Curve) {
 				c17bs(f[0]), c17bs(f[1]), hexBig(g.nzScalar(r)))
 		}
 	}
-	updMuts := []string{"none", "n1Set", "n1Scale", "n2Set", "n2Scale", "allScale", "n1Swap", "chal", "dst", "proofOther"}
+	// n1Cancel / n2Cancel: errors e, −e at positions i, i+1 (cancel in the random linear combination if two coefficients are equal)
+	updMuts := []string{"none", "n1Set", "n1Scale", "n2Set", "n2Scale", "allScale", "n1Swap", "chal", "dst", "proofOther", "n1Cancel", "n2Cancel"}
 	// shapes (#G1 values, #G2 values): every combination around max = 2 (the random-coefficient vector of the batched
 	// same-ratio check has a special case there), one larger. The element-wise substitutions run at EVERY index of a
 	// small group (first / last / one random index of the large one): a check that ignores one position is seen whatever
@@ -814,6 +918,9 @@ func genMpcsetup(g *gen, cn string, c c17Curve) {
 		as, bs := g.scalars(r, sh[0]), g.scalars(r, sh[1])
 		for _, mut := range updMuts {
 			if mut[1] == '1' && sh[0] == 0 || mut[1] == '2' && sh[1] == 0 {
+				continue
+			}
+			if mut == "n1Cancel" && sh[0] < 2 || mut == "n2Cancel" && sh[1] < 2 {
 				continue
 			}
 			idxs := []int{0}
@@ -859,6 +966,75 @@ func genMpcsetup(g *gen, cn string, c c17Curve) {
 		g.emit("C17 mpcsetup %s kind=ratio g1=%s g2=%s", cn, showLL(g1), showLL(b3))
 		z := [][]*big.Int{geo(big.NewInt(0), q, 3)} // all-zero G1 slice: no nonzero representative
 		g.emit("C17 mpcsetup %s kind=ratio g1=%s g2=%s", cn, showLL(z), showLL(g2))
+	}
+	// CORRELATED FORGERIES for the randomised batch check (SameRatioMany draws two INDEPENDENT random sequences, one per group,
+	// each made of the powers of one random value continuing across the slices of the group): FALSE statements that a check
+	// with DEPENDENT coefficients (one sequence shared by both groups, all coefficients equal, the sequence restarted for every
+	// slice, a coefficient that is constant) would accept. The model's verdict is the exact statement (geomPair on all pairs).
+	{
+		mulmod := func(a, b *big.Int) *big.Int { t := new(big.Int).Mul(a, b); return t.Mod(t, r) }
+		addmod := func(a, b *big.Int) *big.Int { t := new(big.Int).Add(a, b); return t.Mod(t, r) }
+		scaleL := func(l []*big.Int, k *big.Int) []*big.Int {
+			o := make([]*big.Int, len(l))
+			for i := range l {
+				o[i] = mulmod(l[i], k)
+			}
+			return o
+		}
+		ratio := func(g1, g2 [][]*big.Int) { g.emit("C17 mpcsetup %s kind=ratio g1=%s g2=%s", cn, showLL(g1), showLL(g2)) }
+		for rep := 0; rep < g.budget(2, 8); rep++ {
+			q, k := g.nzScalar(r), g.nzScalar(r)
+			// (a) mirrored / proportional non-geometric sequences, same slice layout in both groups
+			a, b := g.scalars(r, 3+g.rng.intn(3)), g.scalars(r, 3+g.rng.intn(3))
+			ratio([][]*big.Int{a}, [][]*big.Int{a})
+			ratio([][]*big.Int{a, b}, [][]*big.Int{a, b})
+			ratio([][]*big.Int{a}, [][]*big.Int{scaleL(a, k)})
+			ratio([][]*big.Int{a, b}, [][]*big.Int{scaleL(a, k), scaleL(b, k)})
+			ratio([][]*big.Int{a, geo(g.nzScalar(r), q, 3)}, [][]*big.Int{scaleL(a, k), geo(g.nzScalar(r), q, 3)}) // one mirrored pair among honest slices
+			// (b) cancellation under EQUAL coefficients: Σ shifted = q·Σ truncated although the slice is not geometric
+			for side := 0; side < 2; side++ {
+				n := 3 + g.rng.intn(3)
+				c := g.scalars(r, n)
+				st, ss := big.NewInt(0), big.NewInt(0)
+				for i := 0; i < n-1; i++ {
+					st = addmod(st, c[i])
+					if i > 0 {
+						ss = addmod(ss, c[i])
+					}
+				}
+				c[n-1] = addmod(mulmod(q, st), new(big.Int).Sub(r, ss))
+				h := [][]*big.Int{geo(g.nzScalar(r), q, 2+g.rng.intn(3))}
+				if side == 0 {
+					ratio([][]*big.Int{c}, h)
+				} else {
+					ratio(h, [][]*big.Int{c})
+				}
+			}
+			// (c) errors e, −e at the same position of two slices of one group (cancel when the coefficients restart per slice)
+			for side := 0; side < 2; side++ {
+				n := 3 + g.rng.intn(3)
+				A, B := geo(g.nzScalar(r), q, n), geo(g.nzScalar(r), q, n)
+				j, e := g.rng.intn(n), g.nzScalar(r)
+				A[j], B[j] = addmod(A[j], e), addmod(B[j], new(big.Int).Sub(r, e))
+				h := [][]*big.Int{geo(g.nzScalar(r), q, 2+g.rng.intn(3)), geo(g.nzScalar(r), q, 2)}
+				if side == 0 {
+					ratio([][]*big.Int{A, B}, h)
+				} else {
+					ratio(h, [][]*big.Int{A, B})
+				}
+			}
+			// (d) an error at ONE position only, every position of a slice (position 0 carries the constant coefficient 1), both groups
+			if rep == 0 {
+				n := 4
+				for j := 0; j < n; j++ {
+					A := geo(g.nzScalar(r), q, n)
+					A[j] = addmod(A[j], g.nzScalar(r))
+					h := [][]*big.Int{geo(g.nzScalar(r), q, 3)}
+					ratio([][]*big.Int{geo(g.nzScalar(r), q, 2), A}, h)
+					ratio(h, [][]*big.Int{geo(g.nzScalar(r), q, 2), A})
+				}
+			}
+		}
 	}
 	g.emit("C17 mpcsetup %s kind=ratio g1=%s g2=%s", cn, "1", "1,2")       // slice shorter than 2
 	g.emit("C17 mpcsetup %s kind=ratio g1=%s g2=%s", cn, "1,2;2,4", "_") // no G2 slice
